@@ -1353,19 +1353,24 @@ impl ValueWriter<'_, '_> {
             (first, second) => {
                 let counts = counts_buf;
                 buf.push_raw_str(r#"{"Values":["#);
-                let mut wrote_anything = false;
                 counts.clear(); // clear before to make sure there is no risk
-                let mut wrote =
+                let mut wrote_anything =
                     Self::write_observation(buf, counts, first, multiplicity, name).is_ok();
-                wrote_anything |= wrote;
                 for observation in second.into_iter().chain(distribution) {
-                    if wrote {
+                    // a separator is only kept in front of an observation that is actually
+                    // written, otherwise a skipped (NaN) observation would leave a dangling comma
+                    let (buf_len, counts_len) = (buf.as_str().len(), counts.as_str().len());
+                    if wrote_anything {
                         buf.push(',');
                         counts.push(',');
                     }
-                    wrote = Self::write_observation(buf, counts, observation, multiplicity, name)
-                        .is_ok();
-                    wrote_anything |= wrote;
+                    if Self::write_observation(buf, counts, observation, multiplicity, name).is_ok()
+                    {
+                        wrote_anything = true;
+                    } else {
+                        buf.truncate(buf_len);
+                        counts.truncate(counts_len);
+                    }
                 }
                 // injection-safe because this is a comma-separated list of numbers
                 buf.push_raw_str(counts.as_str());
